@@ -43,7 +43,7 @@ package errors
 //@   pure
 //@   ensures result == 201                                                                                      [C03]
 //@ func (*TaskRunError).TaskExitCode
-//@   site interp.IsExitStatus#1 requires arg0 == err.Err                                                        [C03]
+//@   site interp.IsExitStatus#0 requires arg0 == err.Err                                                        [C03]
 //@   ensures result != 0   -- a failed run never turns into exit status 0, whatever it failed on                [C03,C13]
 // every error class of Task has a non-zero code (interface contract: each implementation returns a constant > 0)
 //@ func (TaskError).Code
